@@ -81,14 +81,13 @@ PathOf(id) == IF id = 0-1 THEN <<>> ELSE PathSeq(doc, id, 0, 0, 1)
 
 Root == RootNode(doc)
 (* nodes that can be reached as TexNode wrappers: everything in bodies and in the bodies of argument groups *)
-SupportsContents(x) == x.k \in {"env", "math", "group"} \/ (x.k = "cmd" /\ x.name = ItemWord)
+SupportsContents(x) == x.k \in {"env", "math", "group"} \/ (x.k = "cmd" /\ (x.name = ItemWord \/ x.body # <<>>))
 Targets == SelectSeq(Descendants(Root), NotText)
 AllTargetIds == {Targets[i].pos : i \in 1..Len(Targets)}
-(* a command whose name is no longer "item" keeps printing its body but refuses content edits: nodes directly in such a *)
-(* body cannot be deleted / replaced through the API (named deviation Dev_FrozenItemBody)                              *)
-FrozenHosts == {i \in 1..Len(Targets) : Targets[i].k = "cmd" /\ Targets[i].name # ItemWord /\ Targets[i].body # <<>>}
-FrozenIds == UNION {{Targets[i].body[j].pos : j \in 1..Len(Targets[i].body)} : i \in FrozenHosts}
-NodeTargetIds == AllTargetIds \ FrozenIds
+(* a command that holds content (an \item, also after it was renamed) accepts content edits; before the repair recorded *)
+(* in known_findings.json (C15, renamed item) a renamed item refused them (former deviation Dev_FrozenItemBody)           *)
+FrozenIds == {}
+NodeTargetIds == AllTargetIds
 (* text leaves are reachable as nodes through parent.all, which works where no argument of the parent holds text *)
 AllWorks(p) == \A j \in 1..Len(p.args) : p.args[j].k = "text" \/ \A i \in 1..Len(p.args[j].body) : p.args[j].body[i].k # "text"
 TextHosts == << Root >> \o SelectSeq(Targets, LAMBDA x : SupportsContents(x) /\ AllWorks(x))
@@ -186,8 +185,8 @@ ChildrenOfP(pid) == LET pn == IF pid = 0-1 THEN Root ELSE GetSeq(doc, pid) IN
 BodyChildren(pid) == {BodyOf(pid)[i].pos : i \in {j \in 1..Len(BodyOf(pid)) : BodyOf(pid)[j].k # "text"}}
 Replace == "replace" \in OpKinds /\ \E pid \in ReplaceHosts : \E cid \in ChildrenOfP(pid) : \E ms \in Material : ReplaceS(pid, cid, ms)
 Remove == "remove" \in OpKinds /\ \E pid \in ParentIds : \E cid \in BodyChildren(pid) : RemoveS(pid, cid)
-InsertIdxOK(pid, i, ms) == i \in 0..(Len(BodyOf(pid)) + 1) \/ (i \in {0-1, 0-2} /\ Len(ms) = 1)
-Insert == "insert" \in OpKinds /\ \E pid \in ParentIds : \E ms \in Material : \E i \in (0-2)..(Len(BodyOf(pid)) + 1) :
+InsertIdxOK(pid, i, ms) == i \in (0-3)..(Len(BodyOf(pid)) + 1)      \* negative indices as in list.insert; several nodes stay together
+Insert == "insert" \in OpKinds /\ \E pid \in ParentIds : \E ms \in Material : \E i \in (0-3)..(Len(BodyOf(pid)) + 1) :
             InsertIdxOK(pid, i, ms) /\ InsertS(pid, i, ms)
 AppendOp == "append" \in OpKinds /\ \E pid \in ParentIds : \E ms \in Material : AppendS(pid, ms)
 RenameOK(id) == id \in AllTargetIds /\ Renamable(GetSeq(doc, id))
